@@ -4,9 +4,22 @@
   The theorems are about the executable model of hotxlfp/formulas/mathtrig.py and engineering.py
   (`HotXL.Fn.Round`, `HotXL.Fn.Eng`): `F [args] = .ok v` says "the call F(args) returns v"
   (`.ok (.err e)` = the error value `e`).  Numbers are exact rationals (`Num.toRat`), so the
-  statements hold for ALL ints and ALL finite floats (as exact values), every `digits`, every
-  significance; float rounding error is outside the model (trusted base of the harness).
+  statements hold for ALL ints and ALL finite floats (as exact values), EVERY int `digits` (the two
+  shortcuts of the code for far-away places are exact: `InDoubleRange` / `OnDoubleGrid` say what
+  they use of a float — it is below 2^1024 and a multiple of 2^-1074, as every double is), every
+  significance; float rounding error, overflow and underflow are outside the model (trusted base
+  of the harness — see the header of Model/Fn/Round.lean).
   `10^-digits` is written `1 / pow10 d`, "a multiple of `10^-digits`" is `k / pow10 d`.
+
+  Termination.  Every model function is a total Lean definition (structural or well-founded
+  recursion, no `partial`), so "the model returns" is true by construction and cannot be the
+  content of a theorem.  What the repaired guards of the code are about is the SIZE of the work
+  hidden in Python's exact integers: `math.factorial(10**15)`, `10 ** 10**15` do terminate in
+  principle but not in practice.  The theorems `fact_bounded`, `round_dir_bounded` state that with
+  the guards the exact integers the code computes are bounded in terms of the SIZE of the arguments
+  (a factorial of at most 170 / 300, a power of ten with at most max(1075, bit length + 1)
+  digits — not 10^15 of them); the harness observes the same thing on the implementation as a
+  line-event / wall-clock budget.
 -/
 import HotXL.Model.Builtins
 import HotXL.Lemmas.Round
@@ -28,14 +41,19 @@ def isErr (r : Except Err Value) (e : Err) : Bool := match r with | .ok (.err x)
 /-! ## the constants and tables of the source the proofs rely on (regenerated from /repo) -/
 
 /-- the 40-bit limits of HEX2DEC / DEC2HEX / DECIMAL and the radix bounds of BASE in the source are
-    2^40, 2^39, -2^39, 2 and 36 -/
+    2^40, 2^39, -2^39, 2 and 36; FACT is cut off at 171, FACTDOUBLE at 301; ROUNDUP / ROUNDDOWN return
+    the number beyond 1074 digits, `_place_beyond` compares `-digits` with max(1024, size), size 0 for
+    a float -/
 theorem source_constants :
     Generated.hex2decBase = 16 ∧ Generated.hex2decZero = 0 ∧ Generated.hex2decLimit = 2 ^ 40 ∧
     Generated.hex2decWrap = 2 ^ 40 ∧ Generated.hex2decHalf = 2 ^ 39 ∧
     Generated.dec2hexLow = -(2 ^ 39) ∧ Generated.dec2hexHigh = 2 ^ 39 ∧ Generated.dec2hexWrap = 2 ^ 40 ∧
     Generated.decimalWrap = 2 ^ 40 ∧ Generated.decimalHalf = 2 ^ 39 ∧
     Generated.baseMin = 2 ∧ Generated.baseMax = 36 ∧
-    Generated.romanLimit = 4000 ∧ Generated.romanMaxForm = 4 ∧ Generated.romanTrueForm = 0 ∧ Generated.romanFalseForm = 4 := by
+    Generated.romanLimit = 4000 ∧ Generated.romanMaxForm = 4 ∧ Generated.romanTrueForm = 0 ∧ Generated.romanFalseForm = 4 ∧
+    Generated.factLimit = 171 ∧ Generated.factdoubleLimit = 301 ∧
+    Generated.roundupDigitsMax = 1074 ∧ Generated.rounddownDigitsMax = 1074 ∧
+    Generated.placeMinDigits = 1024 ∧ Generated.placeFloatSize = 0 := by
   decide
 
 /-- the literal lists of the sources have the shape the named constants were read from
@@ -46,9 +64,11 @@ theorem source_literals :
     Generated.decimalInts = [1099511627776, 549755813888] ∧
     Generated.baseInts = [0, 0, 2, 36, 0, -1] ∧
     Generated.romanInts = [0, 0, 4, 0, 4000, 0, 4, 1, 1] ∧
-    Generated.intsRoundup = [1, 0, -1, 0, 10, 10, 10, 10] ∧ Generated.intsRounddown = [1, 0, -1, 0, 10, 10, 10, 10] ∧
+    Generated.intsRound = [0] ∧ Generated.intsPlaceBeyond = [0, 1024] ∧
+    Generated.intsRoundup = [1, 0, -1, 1074, 0, 0, 0, 10, 10, 10, 10] ∧
+    Generated.intsRounddown = [1, 0, -1, 1074, 0, 0, 0, 10, 10, 10, 10] ∧
     Generated.intsOdd = [2, 1, 1, 0] ∧ Generated.intsEven = [2, 0, 1, 0] ∧
-    Generated.intsFactdouble = [0, 0, 1, 1, 1, -2] := by
+    Generated.intsFact = [0, 171] ∧ Generated.intsFactdouble = [0, 301, 0, 1, 1, 1, -2] := by
   decide
 
 /-- the digit alphabet of BASE is 0-9 then A-Z, and `int(text, radix)` reads each of its first
@@ -285,42 +305,187 @@ example : isInt (MOD [.num (.int (-7)), .num (.int 3)]) 2 = true := by decide +k
 example : isFlt (MOD [.num (.flt (15 / 2)), .num (.int (-2))]) (-1 / 2) = true := by decide +kernel
 example := (mod_spec (.int (-7)) (.int 3)).2 (by decide +kernel)
 
-/-- FACT(n) = n! for every natural number n; a negative argument gives #NUM! -/
+/-- FACT(n) = n! for every natural number n ≤ 170 (170! is the largest factorial that is an XL
+    number); more generally FACT(x) = ⌊x⌋! for every number 0 ≤ x < 171 (the cut-off is applied to
+    the number before it is truncated: FACT(170.9) = 170!); every number ≥ 171 — however large —
+    gives #NUM!, and so does a negative argument -/
 theorem fact_spec :
-    (∀ n : Nat, FACT [.num (.int n)] = .ok (.num (.int (n.factorial : Nat)))) ∧
+    (∀ n : Nat, n ≤ 170 → FACT [.num (.int n)] = .ok (.num (.int (n.factorial : Nat)))) ∧
+    (∀ x : Num, 0 ≤ Num.toRat x → Num.toRat x < 171 →
+      FACT [.num x] = .ok (.num (.int (((Num.toRat x).floor.toNat).factorial : Nat)))) ∧
+    (∀ x : Num, 171 ≤ Num.toRat x → FACT [.num x] = .ok (.err .num)) ∧
     (∀ x : Num, Num.toRat x < 0 → FACT [.num x] = .ok (.err .num)) :=
-  ⟨fact_nat, fun x h => (fact_neg x h).1⟩
+  ⟨fact_nat, fact_value, fun x h => (fact_big x).1 h, fun x h => (fact_neg x h).1⟩
 
 example : isInt (FACT [.num (.int 5)]) 120 = true := by decide +kernel
-example := fact_spec.2 (.flt (-1 / 2)) (by decide +kernel)
+example := fact_spec.1 170 (by decide)
+example := fact_spec.2.1 (.flt (1709 / 10)) (by decide +kernel) (by decide +kernel)
+example : (Num.toRat (.flt (1709 / 10))).floor.toNat = 170 := by decide +kernel
+example := fact_spec.2.2.1 (.int 171) (by decide +kernel)
+example := fact_spec.2.2.1 (.int (10 ^ 15)) (by decide +kernel)
+example := fact_spec.2.2.2 (.flt (-1 / 2)) (by decide +kernel)
+example : isErr (FACT [.num (.int 171)]) .num = true := by decide +kernel
+example : isErr (FACT [.num (.int (10 ^ 15))]) .num = true := by decide +kernel
 
-/-- FACTDOUBLE(n) = n!! for every natural number n; a negative argument gives #NUM! -/
+/-- FACTDOUBLE(n) = n!! for every natural number n ≤ 300 (300!! is the largest double factorial
+    that is an XL number), FACTDOUBLE(x) = ⌊x⌋!! for every number 0 ≤ x < 301; every number ≥ 301
+    gives #NUM!, and so does a negative argument -/
 theorem factdouble_spec :
-    (∀ n : Nat, FACTDOUBLE [.num (.int n)] = .ok (.num (.int (n.doubleFactorial : Nat)))) ∧
+    (∀ n : Nat, n ≤ 300 → FACTDOUBLE [.num (.int n)] = .ok (.num (.int (n.doubleFactorial : Nat)))) ∧
+    (∀ x : Num, 0 ≤ Num.toRat x → Num.toRat x < 301 →
+      FACTDOUBLE [.num x] = .ok (.num (.int (((Num.toRat x).floor.toNat).doubleFactorial : Nat)))) ∧
+    (∀ x : Num, 301 ≤ Num.toRat x → FACTDOUBLE [.num x] = .ok (.err .num)) ∧
     (∀ x : Num, Num.toRat x < 0 → FACTDOUBLE [.num x] = .ok (.err .num)) :=
-  ⟨factdouble_nat, fun x h => (fact_neg x h).2⟩
+  ⟨factdouble_nat, factdouble_value, fun x h => (fact_big x).2 h, fun x h => (fact_neg x h).2⟩
 
 example : isInt (FACTDOUBLE [.num (.int 7)]) 105 = true := by decide +kernel
+example := factdouble_spec.1 300 (by decide)
+example := factdouble_spec.2.2.1 (.int 301) (by decide +kernel)
+example : isErr (FACTDOUBLE [.num (.int 301)]) .num = true := by decide +kernel
+
+/-- the work of FACT / FACTDOUBLE is bounded independently of the argument: whenever a number is
+    returned it is the factorial of some n ≤ 170 (the double factorial of some n ≤ 300) — the
+    recursion of `fact` / `dfact` (Python: `math.factorial`, the `reduce` over `range(n, 1, -2)`)
+    is never entered with anything larger (before the repair FACT(10^15) did not return) -/
+theorem fact_bounded (x r : Num) :
+    (FACT [.num x] = .ok (.num r) → ∃ n : Nat, n ≤ 170 ∧ r = .int (n.factorial : Nat)) ∧
+    (FACTDOUBLE [.num x] = .ok (.num r) → ∃ n : Nat, n ≤ 300 ∧ r = .int (n.doubleFactorial : Nat)) := by
+  have key : ∀ (B : Int) (q : Rat), 0 ≤ q → q < (B : Rat) → q.floor.toNat ≤ (B - 1).toNat := by
+    intro B q h0 hB
+    have h1 : (q.floor : Rat) < (B : Rat) := lt_of_le_of_lt (fl_le q) hB
+    have h2 : q.floor < B := by exact_mod_cast h1
+    omega
+  constructor
+  · intro h
+    by_cases h0 : Num.toRat x < 0
+    · rw [(fact_neg x h0).1] at h; cases h
+    · by_cases h1 : (171 : Rat) ≤ Num.toRat x
+      · rw [(fact_big x).1 h1] at h; cases h
+      · rw [fact_value x (not_lt.mp h0) (not_le.mp h1)] at h
+        cases h
+        exact ⟨_, key 171 _ (not_lt.mp h0) (by exact_mod_cast not_le.mp h1), rfl⟩
+  · intro h
+    by_cases h0 : Num.toRat x < 0
+    · rw [(fact_neg x h0).2] at h; cases h
+    · by_cases h1 : (301 : Rat) ≤ Num.toRat x
+      · rw [(fact_big x).2 h1] at h; cases h
+      · rw [factdouble_value x (not_lt.mp h0) (not_le.mp h1)] at h
+        cases h
+        exact ⟨_, key 301 _ (not_lt.mp h0) (by exact_mod_cast not_le.mp h1), rfl⟩
+
+example := (fact_bounded (.int 5) _).1 (fact_spec.1 5 (by decide))
 
 /-! ## rounding -/
 
-/-- ROUND(x, d) is a multiple of 10^-d within half a unit of x (all ints and floats, all d) -/
-theorem round_spec (x : Num) (d : Int) :
+-- `2 ^ 1024`, `10 ^ 1025` appear as literals in the statements below
+set_option exponentiation.threshold 1200
+
+/-- ROUND(x, d) is a multiple of 10^-d within half a unit of x: ALL ints, all floats below 2^1024 in
+    magnitude (every double), ALL int digits.  (Where the place is far left of the number —
+    `-d > max(1024, bit length)` — the code answers `number * 0` at once; that IS the nearest
+    multiple, since one unit is more than twice the number.) -/
+theorem round_spec (x : Num) (d : Int) (hx : InDoubleRange x) :
     ∃ r : Num, ROUND [.num x, .num (.int d)] = .ok (.num r) ∧
       (∃ k : Int, Num.toRat r = (k : Rat) / pow10 d) ∧
-      |Num.toRat r - Num.toRat x| ≤ (1 / 2) / pow10 d :=
-  ⟨pyRound x d, rfl, pyRound_spec x d⟩
+      |Num.toRat r - Num.toRat x| ≤ (1 / 2) / pow10 d := by
+  cases hb : placeBeyond x (.int d)
+  · exact ⟨pyRound x d, round_value x d hb, pyRound_spec x d⟩
+  · obtain ⟨_, h2, _⟩ := beyond_magnitude x d hb hx
+    refine ⟨mulZero x, round_beyond x _ hb, ⟨0, by simp [toRat_mulZero]⟩, ?_⟩
+    rw [toRat_mulZero, zero_sub, abs_neg]
+    have e : (1 / 2 : Rat) / pow10 d = (1 / 2) * (1 / pow10 d) := by ring
+    rw [e]; linarith
 
-/-- ROUNDUP(x, d) is the multiple of 10^-d with |x| ≤ |r| < |x| + 10^-d and the sign of x -/
-theorem roundup_spec (x : Num) (d : Int) :
+example := round_spec (.int 25) (-1) (fun _ h => by cases h)
+example := round_spec (.int (10 ^ 310)) (-309) (fun _ h => by cases h)
+example := round_spec (.flt (5 / 2)) (-(10 ^ 15)) (fun q h => by cases h; decide +kernel)
+example : isInt (ROUND [.num (.int 7), .num (.int (-10 ^ 15))]) 0 = true := by decide +kernel
+example : isInt (ROUND [.num (.int (10 ^ 310)), .num (.int (-309))]) (10 ^ 310) = true := by decide +kernel
+
+/-- the shortcut of ROUND (an int or a float `digits`): `number * 0`, a zero of the number's kind,
+    exactly where `-digits > max(1024, size)`, size = bit length of an int, 0 for a float -/
+theorem round_place_beyond (x dn : Num) :
+    (placeBeyond x dn = true ↔ ((max 1024 (numSize x) : Int) : Rat) < -Num.toRat dn) ∧
+    (placeBeyond x dn = true → ROUND [.num x, .num dn] = .ok (.num (mulZero x)) ∧ Num.toRat (mulZero x) = 0 ∧
+      (∀ i : Int, x = .int i → mulZero x = .int 0)) :=
+  ⟨placeBeyond_iff x dn, fun h => ⟨round_beyond x dn h, toRat_mulZero x, fun i hi => by subst hi; rfl⟩⟩
+
+example := (round_place_beyond (.flt (5 / 2)) (.flt (-2051 / 2))).2 (by decide +kernel)
+example : placeBeyond (.int (2 ^ 1030)) (.int (-1031)) = false ∧ placeBeyond (.int (2 ^ 1030)) (.int (-1032)) = true ∧
+    placeBeyond (.int (2 ^ 1030 - 1)) (.int (-1031)) = true ∧ placeBeyond (.flt (5 / 2)) (.int (-1024)) = false ∧
+    placeBeyond (.flt (5 / 2)) (.int (-1025)) = true := by decide +kernel
+
+/-- a float `digits` that does not put the place beyond the number is a TypeError of `round`
+    (→ #ERROR!) -/
+theorem round_float_digits (x : Num) (q : Rat) (h : placeBeyond x (.flt q) = false) :
+    ROUND [.num x, .num (.flt q)] = .error .error := by
+  simp [ROUND, parseNumber_num, h]
+
+/-- ROUNDUP(x, d) is the multiple of 10^-d with |x| ≤ |r| < |x| + 10^-d and the sign of x: ALL ints,
+    all floats that are multiples of 2^-1074 (every double), ALL int digits —
+    except where the place is far left of a NON-ZERO number (`roundup_beyond_num`: #NUM!).
+    (Beyond 1074 digits the code returns the number at once: it IS a multiple of 10^-d then.) -/
+theorem roundup_spec (x : Num) (d : Int) (hg : OnDoubleGrid x)
+    (h : placeBeyond x (.int d) = true → Num.toRat x = 0) :
     ∃ r : Num, ROUNDUP [.num x, .num (.int d)] = .ok (.num r) ∧
       (∃ k : Int, Num.toRat r = (k : Rat) / pow10 d) ∧
       |Num.toRat x| ≤ |Num.toRat r| ∧ |Num.toRat r| < |Num.toRat x| + 1 / pow10 d ∧
       (0 ≤ Num.toRat x → 0 ≤ Num.toRat r) ∧ (Num.toRat x ≤ 0 → Num.toRat r ≤ 0) := by
-  obtain ⟨r, hr, hv⟩ := roundDirFn_value true x d
-  refine ⟨r, hr, ?_⟩
-  rw [hv]
-  exact roundDir_up_spec (Num.toRat x) d
+  have hp : 0 < 1 / pow10 d := by have := pow10_pos d; positivity
+  by_cases h1 : 1074 < d
+  · have hr : (1074 : Rat) < Num.toRat (.int d) := by simp only [Num.toRat]; exact_mod_cast h1
+    exact ⟨x, roundDirFn_above true x _ hr, multiple_above x d h1 hg, le_refl _, by linarith, id, id⟩
+  · cases hb : placeBeyond x (.int d)
+    · obtain ⟨r, hr, hv⟩ := roundDirFn_value true x d (by omega) hb
+      refine ⟨r, hr, ?_⟩
+      rw [hv]
+      exact roundDir_up_spec (Num.toRat x) d
+    · have hz := h hb
+      have := roundDirFn_beyond true x (.int d) hb
+      rw [if_neg (fun hc => hc.2 hz)] at this
+      refine ⟨mulZero x, this, ⟨0, by simp [toRat_mulZero]⟩, ?_⟩
+      rw [toRat_mulZero, hz, abs_zero]
+      exact ⟨le_refl _, by linarith, fun _ => le_refl _, fun _ => le_refl _⟩
+
+example := roundup_spec (.int 300000) (-5) (fun _ h => by cases h) (fun h => by revert h; decide +kernel)
+example := roundup_spec (.int 3) 1075 (fun _ h => by cases h) (fun h => by revert h; decide +kernel)
+example := roundup_spec (.int 0) (-2000) (fun _ h => by cases h) (fun _ => by decide +kernel)
+example : OnDoubleGrid (.flt (1 / 2 ^ 1022)) := fun q h => by cases h; exact ⟨2 ^ 52, by norm_num⟩
+example := roundup_spec (.flt (1 / 2 ^ 1022)) 1075 (fun q h => by cases h; exact ⟨2 ^ 52, by norm_num⟩)
+  (fun h => by revert h; decide +kernel)
+example : isInt (ROUNDUP [.num (.int 3), .num (.int (10 ^ 15))]) 3 = true := by decide +kernel
+
+/-- ROUNDUP of a non-zero number to a place far left of it (`-digits > max(1024, size)`, an int or a
+    float `digits`) is #NUM!, of a zero the zero of its kind.  #NUM! is justified: every multiple
+    of 10^-d at or above the number in magnitude is at least 10^1025, beyond the XL numbers -/
+theorem roundup_beyond_num (x dn : Num) (hb : placeBeyond x dn = true) :
+    (Num.toRat x ≠ 0 → ROUNDUP [.num x, .num dn] = .ok (.err .num)) ∧
+    (Num.toRat x = 0 → ROUNDUP [.num x, .num dn] = .ok (.num (mulZero x))) ∧
+    (∀ (d : Int) (k : Int), dn = .int d → InDoubleRange x → Num.toRat x ≠ 0 →
+      |Num.toRat x| ≤ |(k : Rat) / pow10 d| → (10 : Rat) ^ 1025 ≤ |(k : Rat) / pow10 d|) := by
+  have hbb := roundDirFn_beyond true x dn hb
+  refine ⟨fun hx => ?_, fun hx => ?_, ?_⟩
+  · rw [ROUNDUP, hbb, if_pos ⟨rfl, hx⟩]
+  · rw [ROUNDUP, hbb, if_neg (fun hc => hc.2 hx)]
+  · intro d k hd hr hx hle
+    subst hd
+    obtain ⟨_, _, hu⟩ := beyond_magnitude x d hb hr
+    have hp := pow10_pos d
+    have hk : k ≠ 0 := by
+      rintro rfl
+      have : |Num.toRat x| ≤ 0 := by simpa using hle
+      exact hx (abs_eq_zero.mp (le_antisymm this (abs_nonneg _)))
+    have hk1 : (1 : Rat) ≤ |(k : Rat)| := by
+      have : (1 : Int) ≤ |k| := Int.one_le_abs hk
+      exact_mod_cast this
+    rw [abs_div, abs_of_pos hp, div_eq_mul_one_div]
+    calc (10 : Rat) ^ 1025 ≤ 1 * (1 / pow10 d) := by linarith
+      _ ≤ |(k : Rat)| * (1 / pow10 d) := mul_le_mul_of_nonneg_right hk1 (by positivity)
+
+example := (roundup_beyond_num (.int 5) (.int (-1025)) (by decide +kernel)).1 (by decide +kernel)
+example := (roundup_beyond_num (.flt 0) (.int (-1025)) (by decide +kernel)).2.1 (by decide +kernel)
+example : isErr (ROUNDUP [.num (.int 5), .num (.int (-10 ^ 15))]) .num = true := by decide +kernel
+example : isErr (ROUNDUP [.num (.int (10 ^ 310)), .num (.int (-1031))]) .num = true := by decide +kernel
 
 /-- the repaired defect: ROUNDUP(300000, -5) is 300000 (the float `10**-5` made it 399999.99999999994) -/
 example : isInt (ROUNDUP [.num (.int 300000), .num (.int (-5))]) 300000 = true := by decide +kernel
@@ -329,16 +494,79 @@ example : isFlt (ROUNDUP [.num (.int 3), .num (.int 0)]) 3 = true := by decide +
 example : isInt (ROUND [.num (.int 25), .num (.int (-1))]) 20 = true := by decide +kernel
 example : isFlt (ROUND [.num (.flt (5 / 2)), .num (.int 0)]) 2 = true := by decide +kernel
 
-/-- ROUNDDOWN(x, d) is the multiple of 10^-d with |x| - 10^-d < |r| ≤ |x| and the sign of x -/
-theorem rounddown_spec (x : Num) (d : Int) :
+/-- ROUNDDOWN(x, d) is the multiple of 10^-d with |x| - 10^-d < |r| ≤ |x| and the sign of x: ALL
+    ints, all floats that are below 2^1024 and multiples of 2^-1074 (every double), ALL int digits.
+    (Beyond 1074 digits the code returns the number at once, far left of the number `number * 0`:
+    both ARE the multiple the statement asks for.) -/
+theorem rounddown_spec (x : Num) (d : Int) (hx : InDoubleRange x) (hg : OnDoubleGrid x) :
     ∃ r : Num, ROUNDDOWN [.num x, .num (.int d)] = .ok (.num r) ∧
       (∃ k : Int, Num.toRat r = (k : Rat) / pow10 d) ∧
       |Num.toRat x| - 1 / pow10 d < |Num.toRat r| ∧ |Num.toRat r| ≤ |Num.toRat x| ∧
       (0 ≤ Num.toRat x → 0 ≤ Num.toRat r) ∧ (Num.toRat x ≤ 0 → Num.toRat r ≤ 0) := by
-  obtain ⟨r, hr, hv⟩ := roundDirFn_value false x d
-  refine ⟨r, hr, ?_⟩
-  rw [hv]
-  exact roundDir_down_spec (Num.toRat x) d
+  have hp : 0 < 1 / pow10 d := by have := pow10_pos d; positivity
+  by_cases h1 : 1074 < d
+  · have hr : (1074 : Rat) < Num.toRat (.int d) := by simp only [Num.toRat]; exact_mod_cast h1
+    exact ⟨x, roundDirFn_above false x _ hr, multiple_above x d h1 hg, by linarith, le_refl _, id, id⟩
+  · cases hb : placeBeyond x (.int d)
+    · obtain ⟨r, hr, hv⟩ := roundDirFn_value false x d (by omega) hb
+      refine ⟨r, hr, ?_⟩
+      rw [hv]
+      exact roundDir_down_spec (Num.toRat x) d
+    · obtain ⟨_, h2, _⟩ := beyond_magnitude x d hb hx
+      have := roundDirFn_beyond false x (.int d) hb
+      rw [if_neg (by simp)] at this
+      refine ⟨mulZero x, this, ⟨0, by simp [toRat_mulZero]⟩, ?_⟩
+      rw [toRat_mulZero, abs_zero]
+      have := abs_nonneg (Num.toRat x)
+      exact ⟨by linarith, this, fun _ => le_refl _, fun _ => le_refl _⟩
+
+example := rounddown_spec (.flt (-11 / 4)) (-308) (fun q h => by cases h; decide +kernel)
+  (fun q h => by cases h; exact ⟨-11 * 2 ^ 1072, by norm_num⟩)
+example := rounddown_spec (.int (10 ^ 310)) (-1031) (fun _ h => by cases h) (fun _ h => by cases h)
+example : isInt (ROUNDDOWN [.num (.int (10 ^ 310)), .num (.int (-1031))]) 0 = true := by decide +kernel
+example : isFlt (ROUNDDOWN [.num (.flt (-5 / 2)), .num (.int (-10 ^ 15))]) 0 = true := by decide +kernel
+example : isFlt (ROUNDDOWN [.num (.flt (1 / 2 ^ 1022)), .num (.int 1075)]) (1 / 2 ^ 1022) = true := by decide +kernel
+
+/-- beyond 1074 digits (an int or a float `digits`) ROUNDUP and ROUNDDOWN return the number itself,
+    of the same kind (`number + 0`), at once — `10 ** digits` is not computed; for an int and for
+    every multiple of 2^-1074 that is a multiple of 10^-d (so the statements above cover it) -/
+theorem round_dir_above (x dn : Num) (h : 1074 < Num.toRat dn) :
+    ROUNDUP [.num x, .num dn] = .ok (.num x) ∧ ROUNDDOWN [.num x, .num dn] = .ok (.num x) ∧
+    (∀ d : Int, dn = .int d → OnDoubleGrid x → ∃ k : Int, Num.toRat x = (k : Rat) / pow10 d) := by
+  refine ⟨roundDirFn_above true x dn h, roundDirFn_above false x dn h, ?_⟩
+  intro d hd hg
+  subst hd
+  have : (1074 : Rat) < ((d : Int) : Rat) := by simpa [Num.toRat] using h
+  exact multiple_above x d (by exact_mod_cast this) hg
+
+example := round_dir_above (.flt (5 / 2)) (.flt (2149 / 2)) (by decide +kernel)
+
+/-- the work of ROUND / ROUNDUP / ROUNDDOWN is bounded in the size of the number: whatever the
+    arguments, either a shortcut answers at once or `-max(1024, size) ≤ digits` (and `digits ≤ 1074`
+    for ROUNDUP / ROUNDDOWN), so the power of ten the code computes, `10 ** |digits|`, has at most
+    max(1075, bit length + 1) digits (before the repairs ROUNDUP(1, -10^15) computed a power of ten
+    with 10^15 digits) -/
+theorem round_dir_bounded (up : Bool) (x : Num) (d : Int) :
+    ((1074 < d ∧ roundDirFn up [.num x, .num (.int d)] = .ok (.num x)) ∨
+     (max 1024 (numSize x) < -d ∧ roundDirFn up [.num x, .num (.int d)] =
+       if up = true ∧ Num.toRat x ≠ 0 then .ok (.err .num) else .ok (.num (mulZero x))) ∨
+     (-(max 1024 (numSize x)) ≤ d ∧ d ≤ 1074 ∧ ∃ r : Num, roundDirFn up [.num x, .num (.int d)] = .ok (.num r) ∧
+       Num.toRat r = roundDir up (Num.toRat x) d)) ∧
+    ((max 1024 (numSize x) < -d ∧ ROUND [.num x, .num (.int d)] = .ok (.num (mulZero x))) ∨
+     (-(max 1024 (numSize x)) ≤ d ∧ ROUND [.num x, .num (.int d)] = .ok (.num (pyRound x d)))) := by
+  constructor
+  · by_cases h1 : 1074 < d
+    · exact .inl ⟨h1, roundDirFn_above up x (.int d) (by simp only [Num.toRat]; exact_mod_cast h1)⟩
+    · cases hb : placeBeyond x (.int d)
+      · have : ¬ (max 1024 (numSize x) < -d) := fun hc => by
+          rw [(placeBeyond_int x d).mpr hc] at hb; cases hb
+        exact .inr (.inr ⟨by omega, by omega, roundDirFn_value up x d (by omega) hb⟩)
+      · exact .inr (.inl ⟨(placeBeyond_int x d).mp hb, roundDirFn_beyond up x (.int d) hb⟩)
+  · cases hb : placeBeyond x (.int d)
+    · have : ¬ (max 1024 (numSize x) < -d) := fun hc => by
+        rw [(placeBeyond_int x d).mpr hc] at hb; cases hb
+      exact .inr ⟨by omega, round_value x d hb⟩
+    · exact .inl ⟨(placeBeyond_int x d).mp hb, round_beyond x _ hb⟩
 
 /-- CEILING(x, s), s ≠ 0, is a multiple of s less than |s| away from x; at or above x when
     x ≥ 0 or s > 0 (rounded up), at or below x when both are negative (away from zero) -/
